@@ -137,11 +137,14 @@ static bool usable(int i)
   return true;
 }
 
+// (noinline: keeps clang from fusing the two range tests into a bitwise or of symbolic ranks)
+static bool __attribute__((noinline)) in_range(int i) { return i >= 0 && i < N; }
+
 // the target of the member-function pointer `_evaluate`: records the call
 void AVario::_evaluateVariogram(Db* db, int nvar, int iech1, int iech2, int ipas, double dist, bool do_asym)
 {
   (void)nvar; (void)do_asym;
-  bool valid = iech1 >= 0 && iech1 < N && iech2 >= 0 && iech2 < N && iech1 != iech2 && db == g_db;
+  bool valid = in_range(iech1) && in_range(iech2) && iech1 != iech2 && db == g_db;
   vf_assert_id(valid, "evaluated pair consists of two distinct valid sample ranks");
   if (!valid) return;
   vf_assert_id(!g_hasSel || (g_sel[iech1] && g_sel[iech2]), "no masked sample reaches the estimator");
@@ -204,6 +207,10 @@ static Vario* setup()
       // a distance is at least the separation along the first axis
       double d = abs_d(g_x[i] - g_x[j]) + abs_d(extra);
       g_keep[i * N + j] = g_keep[j * N + i] = kp;
+#if VF_DATE
+      bool kp2 = vf_nondet_bool(); // the date test of keepPair is oriented: one answer per ordered pair
+      g_keep[j * N + i] = (i == j) ? kp : kp2;
+#endif
       g_dist[i * N + j] = g_dist[j * N + i] = d;
       g_lag[i * N + j] = g_lag[j * N + i] = lundef ? ITEST : lg;
     }
@@ -253,15 +260,18 @@ static void oracle()
       if (masked) vf_assert_id(n == 0, "a pair with a masked or weight-undefined end is never evaluated");
 #endif
 #else
-      // dates in use: the date test of keepPair is oriented, each ordered pair is a candidate
-      bool eligible = !masked && g_keep[i * N + j] && g_lag[i * N + j] != ITEST;
+      // dates in use: the date test of keepPair is oriented, so each ordered pair is a candidate
       bool within = abs_d(g_x[i] - g_x[j]) <= g_maxdist;
-      if (eligible && within)
+      for (int o = 0; o < 2; o++)
       {
-        vf_assert_id(g_cnt[i * N + j] == 1, "dates: every usable accepted ordered pair within maxdist is evaluated exactly once");
-        vf_assert_id(g_cnt[j * N + i] == 1, "dates: every usable accepted ordered pair within maxdist is evaluated exactly once");
+        int a = o ? j : i, b = o ? i : j;
+        bool eligible = !masked && g_keep[a * N + b] && g_lag[a * N + b] != ITEST;
+        if (eligible && within)
+          vf_assert_id(g_cnt[a * N + b] == 1, "dates: every usable accepted ordered pair with a lag whose first-axis separation is within maxdist is evaluated exactly once");
+        if (!eligible) vf_assert_id(g_cnt[a * N + b] == 0, "dates: no masked, rejected or lag-less ordered pair is evaluated");
+        vf_assert_id(g_cnt[a * N + b] <= 1, "dates: no ordered pair is evaluated twice");
       }
-      if (!eligible) vf_assert_id(n == 0, "no masked, rejected or lag-less pair is evaluated");
+      (void)n;
 #endif
     }
   vf_witness();
